@@ -333,6 +333,15 @@ pub fn exec_case(sc: &SubCheck, raw: &[u32], record: bool) -> CaseResult {
     };
     let hash = d.hash();
     let configs = d.configs;
+    let outcome = if d.consumed() > raw.len() {
+        // the sub-check asked for more entropy than its declared vector length: a harness defect
+        match outcome {
+            Outcome::Fail { .. } => outcome,
+            _ => Outcome::Discard("HARNESS: draw vector exhausted (declared len too small)"),
+        }
+    } else {
+        outcome
+    };
     CaseResult { outcome, hash, notes: d.take_notes(), configs }
 }
 
